@@ -5,17 +5,18 @@
 (* Setup: bufsize; windows: sequence of [chip |-> <<x, y>>, origin |->     *)
 (* <<hi, lo>>, init |-> bytes].                                            *)
 (* Events                                                                  *)
-(*  <<"cmd", kind, x, y, addr, n, typ, data, rdata, rc, vx, vy>>           *)
+(*  <<"cmd", kind, x, y, addr, n, typ, data, rdata, rc, vx, vy, core>>     *)
 (*      one SCP command as the simulator executed it, kind in "read",      *)
 (*      "write", "fill", "link_read", "link_write"; addr = <<hi, lo>>;     *)
 (*      data = bytes carried (fill: the 4 bytes of the word); rdata =      *)
 (*      bytes returned; (vx, vy) the chip a link command reached           *)
-(*  <<"op", kind, x, y, addr, n, data, result>>                            *)
+(*  <<"op", kind, x, y, addr, n, data, result, core>>                      *)
 (*      the client-level call that the commands since the previous "op"    *)
 (*      belong to: kind "read" (result = bytes returned), "write"          *)
 (*      (data = bytes given), "fillw" / "fillb" (data = pattern bytes      *)
 (*      expected by the documentation of fill), result "ok" or the         *)
-(*      exception class name; kinds "sread" / "swrite" are struct-field     *)
+(*      exception class name; kinds "sread" / "swrite" / "sconf" (a value  *)
+(*      too long for its field) are struct-field                           *)
 (*      accesses whose addr is <<base, offset, core, blocksize>>: the      *)
 (*      field lives at base + offset + core * blocksize (base = the struct *)
 (*      base, or the per-core block base of that chip)                     *)
@@ -41,8 +42,14 @@ WinOf(c, addr, n) ==
 IsRead(k) == k \in {"read", "link_read", "sread"}
 \* <<hi, lo>> plus a small non-negative integer
 AddTo(a, k) == << a[1] + ((a[2] + k) \div 65536), (a[2] + k) % 65536 >>
-OpAddr(e) == IF e[2] \in {"sread", "swrite"} THEN AddTo(e[5][1], e[5][2] + e[5][3] * e[5][4]) ELSE e[5]
-Target(e) == IF e[2] \in {"link_read", "link_write"} THEN <<e[11], e[12]>> ELSE <<e[3], e[4]>>
+OpAddr(e) == IF e[2] \in {"sread", "swrite", "sconf"} THEN AddTo(e[5][1], e[5][2] + e[5][3] * e[5][4]) ELSE e[5]
+\* the memory tightly coupled to each core (instruction memory below 0x8000, data memory at 0x004xxxxx) exists once
+\* per core at the same addresses: a window on it belongs to <<x, y, core>>, a command / call reaches the memory of
+\* the core it is addressed to (the last field of the event)
+Local(a) == a[1] = 64 \/ (a[1] = 0 /\ a[2] < 32768)
+Target(e) == IF e[2] \in {"link_read", "link_write"} THEN <<e[11], e[12]>>
+             ELSE IF Local(e[5]) /\ e[13] # 0 THEN <<e[3], e[4], e[13]>> ELSE <<e[3], e[4]>>
+OpChip(e) == IF Local(OpAddr(e)) /\ e[9] # 0 THEN <<e[3], e[4], e[9]>> ELSE <<e[3], e[4]>>
 
 Checks(e) ==
   CASE e[1] = "cmd" ->
@@ -60,17 +67,21 @@ Checks(e) ==
             EnvReadReturnsMemory |-> (w # 0 /\ IsRead(kind)) => e[9] = Slice(st.mem[w], off, n)]
     [] e[1] = "op" ->
         LET kind == e[2]  addr == OpAddr(e)  n == e[6]
-            w == WinOf(<<e[3], e[4]>>, addr, n)
+            w == WinOf(OpChip(e), addr, n)
             off == IF w = 0 THEN 0 ELSE Offset(addr, Tr.windows[w].origin)
             \* per-core fields: the controller may first look up the chip's per-core block base, a 4-byte
             \* pointer whose address is e[5][5]; those reads are not part of the transfer proper
-            hasaux == kind \in {"sread", "swrite"} /\ Len(e[5]) >= 5
+            hasaux == kind \in {"sread", "swrite", "sconf"} /\ Len(e[5]) >= 5
             auxw == IF hasaux THEN WinOf(<<e[3], e[4]>>, e[5][5], 4) ELSE 0
             auxoff == IF auxw = 0 THEN 0 ELSE Offset(e[5][5], Tr.windows[auxw].origin)
             IsAux(a) == hasaux /\ auxw # 0 /\ a[1] = auxw /\ a[2] = auxoff /\ a[3] = 4 /\ ~a[4]
             proper == { a \in st.acc : ~IsAux(a) }
             mine == { <<a[2], a[3]>> : a \in { a \in proper : a[1] = w } }
-        IN IF e[8] # "ok" THEN [NoException |-> FALSE]
+        IN IF kind = "sconf"
+           \* a value too long for its field: whatever the call does (store a part, refuse), it writes nothing
+           \* outside the field
+           THEN [ConfinedToField |-> w # 0 /\ \A a \in proper : ~a[4] \/ (a[1] = w /\ a[2] >= off /\ a[2] + a[3] <= off + n)]
+           ELSE IF e[8] # "ok" THEN [NoException |-> FALSE]
            ELSE
            [InObservedWindow |-> w # 0,
             \* every byte of the range is transferred and nothing outside it is touched, on any chip
